@@ -11,6 +11,17 @@ type orC01 struct {
 	baseOracle
 	heldAtFreeze map[*iterRec]map[string]GTIDSet
 	lastProm     map[string]uint64 // iteration key -> seq of promotion
+	late         bool
+}
+
+// report: a promotion statement that the server executed after its sender had given up waiting
+// for it is judged like any other promotion but reported under its own kind
+func (o *orC01) report(kind, sig, detail string) {
+	if o.late {
+		o.m.violate("C01", "late_statement", "promotion-statement-executed-after-sender-gave-up:"+kind, detail)
+		return
+	}
+	o.m.violate("C01", kind, sig, detail)
 }
 
 func (o *orC01) name() string { return "C01" }
@@ -104,6 +115,12 @@ func (o *orC01) onSQL(ev *SQLEvent) {
 		m.violate("C01", "promotion_outside_iteration", "promote-outside-state-handler", fmt.Sprintf("%s made %s writable outside any state handler", ev.Src, ev.Dst))
 		return
 	}
+	if ev.CallerGone {
+		// the statement was executed by the server after its sender had given up waiting for it
+		// (and possibly moved on): judged like any other promotion, reported under its own name
+		o.late = true
+		defer func() { o.late = false }()
+	}
 	H := s.mysql.servers[ev.Dst]
 	cfg := &s.spec.Cfg
 	// A: published list as this manager read it when the iteration started
@@ -160,11 +177,11 @@ func (o *orC01) onSQL(ev *SQLEvent) {
 		m.probe("c01_promotion_with_fault_in_iteration")
 	}
 	if len(F) < q && !asyncException {
-		m.violate("C01", "frozen_quorum", "promotion-without-caught-up-frozen-quorum",
+		o.report("frozen_quorum", "promotion-without-caught-up-frozen-quorum",
 			fmt.Sprintf("%s promoted %s: active=%v quorum=%d, frozen&contained=%v, others: %v", ev.Src, H.Name, A, q, F, deficits))
 	}
 	if !contains(A, H.Name) {
-		m.violate("C01", "promoted_not_active", "promoted-host-not-in-active-list", fmt.Sprintf("%s promoted %s which is not in active list %v", ev.Src, H.Name, A))
+		o.report("promoted_not_active", "promoted-host-not-in-active-list", fmt.Sprintf("%s promoted %s which is not in active list %v", ev.Src, H.Name, A))
 	}
 	if from := jsonField(m.switchRaw, "from"); from != "" && from == H.Name {
 		m.violate("C01", "promoted_from_host", "promoted-the-from-host", fmt.Sprintf("%s promoted %s, the host the switch moves away from", ev.Src, H.Name))
@@ -190,7 +207,7 @@ func (o *orC01) onSQL(ev *SQLEvent) {
 		}
 	}
 	if len(sets) >= 2 && !isChain(sets) {
-		m.violate("C01", "splitbrain_promoted", "promotion-despite-incomparable-frozen-sets", fmt.Sprintf("%s promoted %s although frozen members %v hold incomparable transaction sets: %v", ev.Src, H.Name, fr, desc))
+		o.report("splitbrain_promoted", "promotion-despite-incomparable-frozen-sets", fmt.Sprintf("%s promoted %s although frozen members %v hold incomparable transaction sets: %v", ev.Src, H.Name, fr, desc))
 	}
 	if o.lastProm == nil {
 		o.lastProm = map[string]uint64{}
@@ -244,7 +261,13 @@ func (o *orC01) onIterLeave(it *iterRec) {
 		if sv.lastWorldChange >= it.startT {
 			return // the world changed this server after the attempt began: what was collected may differ from what is there now
 		}
-		sets = append(sets, sv.Holds())
+		// what the member held when it was frozen is what the attempt collected; a catch-up from
+		// the most recent member later in the same attempt changes the holdings again
+		held := sv.Holds()
+		if x, ok := o.heldAtFreeze[it][h]; ok {
+			held = x
+		}
+		sets = append(sets, held)
 	}
 	if isChain(sets) {
 		return
